@@ -10,6 +10,7 @@ sequence number, no clock.
 
 import json
 import os
+import re as _re
 
 _state = {"depth": 0, "seq": 0, "children": [], "fh": None, "path": None}
 
@@ -136,8 +137,9 @@ def cte_event(kind, cte_cache, ops_key, cte, stub, sequence):
             "key": _short(ops_key),
             "name": str(cte.quoted_query_name),
             # content of the requested step: its terms, suffix and the names it reads from
-            "sig": _short([type(stub).__name__, list((getattr(stub, "terms", None) or {}).items()),
-                           getattr(stub, "suffix", None), [x["name"] for x in subs]]),
+            # (numbers of generated alias / view names are not content: "join_source_left_3" ~ "join_source_left_7")
+            "sig": _short(_re.sub(r"_[0-9]+\b", "_N", str([type(stub).__name__, list((getattr(stub, "terms", None) or {}).items()),
+                                                           getattr(stub, "suffix", None), [x["name"] for x in subs]]))),
             "refs": [x["name"] for x in subs if x["is_cte"]],
             "defined": [str(k) for k, v in sequence],
         }
